@@ -6,6 +6,9 @@ V = os.path.dirname(os.path.dirname(os.path.abspath(__file__)))
 # id -> (technique, level text, level note, design ref)
 PROOF_NOTE = "Lean 4.33 kernel; axioms propext/Quot.sound/Classical.choice only (audited per run); translator go/extract and the layout interpreter Model/Layout.lean validated against the real IEncode/IDecode by the correspondence run; Go runtime/stdlib modelled (DESIGN.md 2.6)."
 CLAIMED = {
+ "C10": ("Lean 4 `decide` over tables regenerated from the Go source (GetCommand, GenEmptyResponse, Get/SetSequenceID, the five Decode* switches, header offsets from the layouts) against a hand-written request/response specification table; tables validated against the real methods and dispatchers by correspondence",
+         "Finite-table proof: every clause of the property is a closed statement over regenerated tables (all PDU types, all dispatcher cases); the 32-bit quantifiers (all sequence numbers, all header ids) are lifted by lemma (respCmdOK_sound) or are structural (the sequence is copied, not computed). The harness exercises all types x bind flavours x sequence edges and 2k-100k dispatcher ids.",
+         PROOF_NOTE, "DESIGN.md 4/C10"),
  "C01": ("proof by reflection in Lean 4: layouts regenerated from the Go source (go/extract), decidable checker evaluated by `decide`, soundness theorem roundtrip_sound proved once; differential correspondence of the layout interpreter with the real encoders/decoders",
          "For every PDU type found in /repo the kernel re-checks, on every run, that the regenerated IEncode/IDecode statement lists align into inverse wire items; the generic theorem then gives decode(encode r) = r for all field values that fit, unboundedly. Two SMGP types and one authenticator slot are recorded known findings with refutation theorems.",
          PROOF_NOTE, "DESIGN.md 4/C01"),
